@@ -27,6 +27,9 @@ type c02Plan struct {
 	list   int // first feature list variant
 	answer int // reply to <starttls/>
 	cutAt  int
+	// the peer's first (clear-text) header addresses somebody else: it must not get to choose the name the client
+	// puts into its ClientHello and verifies the certificate against
+	foreignTo bool
 }
 
 var c02Lists = []string{"starttls-required", "starttls-optional", "starttls-absent-sasl-offered", "empty", "starttls-among-others", "unknown-only", "bind-and-sasl-only"}
@@ -102,7 +105,11 @@ func c02Session(rc *RC, idx int, tag string, origin jid.JID, feats []xmpp.Stream
 		case "bind-and-sasl-only":
 			fl = mech + bindF
 		}
-		hdr(sc, "clear-first", `<stream:features>`+fl+`</stream:features>`)
+		if plan.foreignTo {
+			fmt.Fprintf(sc, `<?xml version='1.0'?><stream:stream xmlns='jabber:client' xmlns:stream='http://etherx.jabber.org/streams' version='1.0' id='clear-first' from='%s' to='me@attacker.example'><stream:features>%s</stream:features>`, origin.Domain(), fl)
+		} else {
+			hdr(sc, "clear-first", `<stream:features>`+fl+`</stream:features>`)
+		}
 		// a client that goes on in clear text is answered so that the breach becomes visible as a ready session
 		clearHelper := func() {
 			for i := 0; i < 6 && !o.done; i++ {
@@ -270,11 +277,11 @@ func runC02(rc *RC) {
 			dom = domains[ch.Int("workload", len(domains))]
 		}
 		origin := jid.MustParse("me@" + dom + "/r")
-		plan := c02Plan{list: ch.Int("script", len(c02Lists)), answer: ch.Int("script", len(c02Answers))}
+		plan := c02Plan{list: ch.Int("script", len(c02Lists)), answer: ch.Int("script", len(c02Answers)), foreignTo: ch.Chance("script", 1, 5)}
 		if f := os.Getenv("C02_FORCE"); f != "" {
 			fmt.Sscanf(f, "%d,%d", &plan.list, &plan.answer)
 		}
-		rc.Describe("session %d origin=%s list=%s answer=%s", i, origin, c02Lists[plan.list], c02Answers[plan.answer])
+		rc.Describe("session %d origin=%s list=%s answer=%s foreign-to=%v", i, origin, c02Lists[plan.list], c02Answers[plan.answer], plan.foreignTo)
 		rc.CaseKey += fmt.Sprint(useNil, plan)
 		off := c02Session(rc, i, "a", origin, feats, plan, false, cert)
 		on := c02Session(rc, i, "b", origin, feats, plan, true, cert)
